@@ -51,6 +51,16 @@ static Verdict run_once(const Case &c, World &w, int *ifi_io, int round) {
     int ifi;
     if (round == 0) { ifi = w.add_if(ic); *ifi_io = ifi; }
     else { ifi = *ifi_io; size_t keep = w.ctx(ifi)->mtu; ic.mtu = keep; ic.apply(w.ctx(ifi), ifi); }   // same interface context, new attribute values (MTU and address stay)
+    // cfg[16]: the host has a second interface with quite different attributes (wired, universally administered address, addresses set) that has already
+    // answered a Discover of its own: a Hello describes the interface it is sent on, whatever its siblings look like and whichever of its own getters fail
+    if (c.c(16) && round == 0) {
+        IfCfg sib;
+        sib.mac = mac_from_u64(0x001B21AABB00ULL + (uint64_t)(c.c(16) & 0xFF)); sib.wifi = 0; sib.ipv4 = 0x0A141E28; sib.iftype = 6; sib.speed = 1234567; sib.flags = 0x2000;
+        for (int k = 0; k < 16; k++) sib.ipv6[k] = (uint8_t)(0x20 + k);
+        int sidx = w.add_if(sib);
+        Mac ms = {{2, 0xAA, 0, 0, 0, 1}};
+        (void)w.deliver(sidx, mk_discover(ms, ms, 0, 1, 1, {}));
+    }
     Mac m = {{2, 0xAA, 0, 0, 0, 1}};
     // cfg[15]: the Hello under examination is not the first one - the same mapper's Discover of the OTHER service (generation cfg[15]) was answered just before,
     // without a Reset in between; the properties describe the interface, not the history
@@ -152,7 +162,7 @@ int main(int argc, char **argv) {
                      *gx::bnd({0, 1, 0xFF, 0x100, 0xFFFF, 0x0102}, 0, 0xFFFF, 1, 1), *gx::range<int64_t>(-128, 127), fail, *gx::pick({0, 1}),
                      *gx::weighted<int64_t>({{1, gx::pick({0, 0xFFFFFFFFFFFFLL})}, {6, gx::range<int64_t>(1, 0xFFFFFFFFFFFELL)}}), *gx::weighted<int64_t>({{1, gx::pick({0, 0xFFFFFFFFFFFFLL, 1, 0xFFFFFFFFFFFELL, 0x0000FF000000LL})}, {5, gx::range<int64_t>(0, 0xFFFFFFFFFFFFLL)}}),   // BSSID: every value the platform reports is encoded, all-zero and all-ones included
                     
-                     *gx::pick({576, 1500, 9216}), *gx::pick({0, 1}), *gx::pick({0, 0, 1, 2, 3}), *gx::pick({0, 0, 0, 1, 5, 0xFFFF})};
+                     *gx::pick({576, 1500, 9216}), *gx::pick({0, 1}), *gx::pick({0, 0, 1, 2, 3}), *gx::pick({0, 0, 0, 1, 5, 0xFFFF}), *gx::pick({0, 0, 1, 2})};
             c.blobs = {*gx::bytes(0, 40), *gx::bytes(0, 40), *gx::bytes(16, 16)};
             // values that mean something elsewhere must still be encoded as they are: IANA interface types (24 = software loopback, 6, 71, 53, 131 ...)
             if (*gx::chance(15)) c.cfg[1] = *gx::pick({1, 6, 23, 24, 24, 53, 71, 131, 144, 161, 209, 243});
